@@ -388,7 +388,11 @@ def run(ctx):
         if r["outside"]:
             ctx.violation(case, "touched paths outside the root: %r" % r["outside"][:3])
             continue
-        # ---- edge C
+        # ---- edge C (literal cases: the Lean specification; symlinked ones: the direct oracle, plain link topologies only)
+        if literal or not c18.simple_links(r["pre"], old + (new or [])) or (r["mid"] is not None and not c18.simple_links(r["mid"], old + (new or []))):
+            if r["oracle"] and not literal:
+                ctx.count("symlinked_case_with_complex_links_not_claimed")
+            r["oracle"] = []
         if r["oracle"]:
             ctx.violation(case, "; ".join(r["oracle"][:3]))
         elif res == "ok" and literal and sp:
